@@ -45,6 +45,67 @@ func geometry(hier, idxdev bool, spare int) lstore.Geometry {
 	return g
 }
 
+// largeStateBody: a scripted history on the largest geometry the configuration accepts (just under 100 blocks):
+// hundreds of small uploads, each followed by a commit, so that every live block carries several epochs and the
+// state file spans several KiB; then a process crash. Restoring the state must not depend on its size.
+func largeStateBody(g lstore.Geometry, uploads int) func() {
+	return func() {
+		med := lstore.NewMedia(g)
+		s := lstore.Open(g, med)
+		ctx := context.Background()
+		var acks []lstore.Ack
+		for i := 0; i < uploads; i++ {
+			o := lstore.CASObj(fmt.Sprintf("L%03d", i), inst(g), []byte(fmt.Sprintf("%04d", i)))
+			if err := s.PutOK(o.Digest, o.Content); err != nil {
+				failf("upload-error-"+status.Code(err).String(), "Put %d failed: %v", i, err)
+			}
+			acks = append(acks, lstore.Ack{Obj: o, Seq: i})
+			if s.PutWakeupReady() {
+				s.Syncer.ProcessBlockPut(ctx)
+			}
+			if s.ReleaseWakeupReady() {
+				s.Syncer.ProcessBlockRelease()
+			}
+		}
+		if n := len(s.StateStore.Written); n == 0 {
+			failf("harness", "no state was ever written")
+		}
+		rs := s.Restart(g)
+		vsched.Obs("restored blocks=%d", rs.InitialBlocks)
+		held := 0
+		for _, a := range acks {
+			if !s.Held(a.Obj.Digest) {
+				continue
+			}
+			held++
+			if !rs.Held(a.Obj.Digest) {
+				failf("committed-upload-lost-by-process-crash", "Put(%s) was acknowledged before a commit that ran to completion and the live store still held it; after a process crash the restarted store (restored blocks=%d) does not resolve it", a.Obj.Name, rs.InitialBlocks)
+			}
+		}
+		// Byte-for-byte on fresh restarts for a spread of the held objects (a read may refresh and rotate).
+		for i := len(acks) - 1; i >= 0; i -= 37 {
+			a := acks[i]
+			if !s.Held(a.Obj.Digest) {
+				continue
+			}
+			r2 := s.Restart(g)
+			if ok, err := r2.Served(a.Obj.Digest, a.Obj.Content); err != nil || !ok {
+				failf("committed-upload-lost-by-process-crash", "Put(%s) was committed and still held, yet after a process crash the restarted store does not serve it (err=%v)", a.Obj.Name, err)
+			}
+			vsched.Mark()
+		}
+		vsched.Obs("held=%d", held)
+	}
+}
+
+func largeGeometry() lstore.Geometry {
+	g := geometry(false, true, 3)
+	g.SectorsPerBlock = 8
+	g.Old, g.Current = 46, 46
+	g.IndexSlots = 4093
+	return g
+}
+
 func inst(g lstore.Geometry) string {
 	if g.Hierarchical {
 		return "a"
@@ -288,6 +349,9 @@ func main() {
 	} {
 		scs = append(scs, mc.Scenario{Name: "shutdown/" + x.name, Space: fmt.Sprintf("uploaders %v || syncer loops || shutdown thread (late upload after restart point: %v; state-directory fault budget %d) on %s", x.uploads, x.late, x.faults, x.g), Bound: bound, Body: shutdownBody(x.g, x.uploads, x.late, x.faults), Budget: budget, MaxSteps: 60000})
 	}
+	// The largest geometry the configuration accepts, every block carrying several epochs: a state file of several KiB.
+	lg := largeGeometry()
+	scs = append(scs, mc.Scenario{Name: "commit/large-state", Space: fmt.Sprintf("one scripted history: 800 four-byte uploads, each followed by a commit and a release step, on %s (about 96 live blocks with 8 epochs each); process crash at the end: every acknowledged upload the live store still resolves is resolved by the restarted store, a spread of them read back byte for byte", lg), Bound: 0, Body: largeStateBody(lg, 800), Budget: budget, MaxSteps: 40000000})
 	depth := ev.Pick(r, 5, 7)
 	for _, hier := range []bool{false, true} {
 		g := geometry(hier, true, 1)
